@@ -224,6 +224,7 @@ tpair = z3.Function("tpair", I, I, TupS)          # the literal 2-tuple (a, b) (
 _SetI = z3.ArraySort(I, B)
 tset = z3.Function("tset", TupS, _SetI)
 scommon = z3.Function("scommon", _SetI, _SetI, I)
+sjaccard = z3.Function("sjaccard", _SetI, _SetI, R)       # |a & b| / |a | b| as one specification term (sjaccard_def in hv/contracts/similarity.py)
 
 def _pair_ii():
     from . import ty as T
@@ -257,6 +258,7 @@ _ts1, _ts2 = z3.Const("_ts1", _SetI), z3.Const("_ts2", _SetI)
 EXTRA.update({
     "tset_def (members of set(k))": z3.ForAll([_k, _n], tset(_k)[_n] == tmem(_k, _n), patterns=[tset(_k)[_n], MP(tmem(_k, _n), tset(_k))]),
     "scommon_sym (|a & b| = |b & a|)": z3.ForAll([_ts1, _ts2], scommon(_ts1, _ts2) == scommon(_ts2, _ts1), patterns=[scommon(_ts1, _ts2)]),
+    "sjaccard_sym (J(a, b) = J(b, a))": z3.ForAll([_ts1, _ts2], sjaccard(_ts1, _ts2) == sjaccard(_ts2, _ts1), patterns=[sjaccard(_ts1, _ts2)]),
     "scommon_nonneg": z3.ForAll([_ts1, _ts2], scommon(_ts1, _ts2) >= 0, patterns=[scommon(_ts1, _ts2)]),
     "tpair_def ((a, b) has length 2, holds a then b, and nothing else)": z3.ForAll(
         [_pa, _pb], z3.And(tlen(tpair(_pa, _pb)) == 2, tat(tpair(_pa, _pb), 0) == _pa, tat(tpair(_pa, _pb), 1) == _pb,
